@@ -22,7 +22,7 @@ def _short(x, n=160):
 
 
 class Loc:
-    __slots__ = ('state', 'stage', 'stage_exact', 'tainted', 'writer', 'key', 'err_dir', 'err_partial', 'kind', 'slug', 'last_run', 'steps', 'fail_partial', 'tree', 'migrated', 'faulted')
+    __slots__ = ('state', 'stage', 'stage_exact', 'tainted', 'writer', 'key', 'err_dir', 'err_partial', 'kind', 'slug', 'last_run', 'steps', 'fail_partial', 'tree', 'migrated', 'faulted', 'vh')
 
     def __init__(self, kind, slug, steps=0):
         self.state = 'absent'      # absent | complete | indoubt
@@ -40,11 +40,12 @@ class Loc:
         self.fail_partial = False
         self.tree = None
         self.migrated = False
+        self.vh = None           # (h, revision) of the stored value when it is not the revision-0 value of the asking instance
         self.faulted = False     # sticky: some run/save of this location failed or was interrupted at some point of the history
 
 
 class Obj:
-    __slots__ = ('mem', 'forced', 'unknown', 'ref_invalid', 'locid')
+    __slots__ = ('mem', 'forced', 'unknown', 'ref_invalid', 'locid', 'vh')
 
     def __init__(self):
         self.mem = False
@@ -52,6 +53,7 @@ class Obj:
         self.unknown = False       # in-memory state unknown (after a disk error inside the process)
         self.ref_invalid = False   # holds a reference value (directory path / lazy reader) whose storage was deleted through another object
         self.locid = None
+        self.vh = None             # (h, revision) of the value held in memory; None = the instance's static expected value
 
 
 class Judge:
@@ -69,6 +71,9 @@ class Judge:
                       'crash_in_save': 0, 'crash_in_nested_run': 0, 'crash_in_error_handler': 0, 'crash_in_replace_dir': 0,
                       'mem_shared_multichain': 0, 'cont_resumed': 0, 'error_dir_checked': 0, 'records_checked': 0}
         self.abstract_states = []
+        self.rev = {}              # slug -> revision of the external resource the run body reads
+        self.rev_used = False
+        self._exp_cache = {}
         self.proc = None
         self.cur_multi = False
         self.cur_migrated = False
@@ -93,6 +98,15 @@ class Judge:
         if self.cur_multi and prop in ('C01', 'C02', 'C04'):
             # a member chain of a MultiChain must behave as the standalone chain of its config (C13)
             self.discs.append(Disc(prop='C13', inv=inv, op=i, msg='member chain differs from standalone chain: ' + msg, detail=detail))
+
+    def expected(self, it, vh):
+        """canonical value a request of `it` has to return when the value behind it is `vh` (None: revision 0 throughout)"""
+        if vh is None:
+            return it.expected
+        k = (it.kind, vh)
+        if k not in self._exp_cache:
+            self._exp_cache[k] = V.canon_expected(it.kind, V.make_value_rev(it.kind, vh[0], vh[1]))
+        return self._exp_cache[k]
 
     def model(self, root, outer):
         k = (root, outer)
@@ -621,6 +635,10 @@ class Judge:
     def j_armrun(self, op, o):
         self.proc['faults'][op['slug']] = [op['kind'], op.get('at')]
 
+    def j_rev(self, op, o):
+        self.rev = dict(op['map'])
+        self.rev_used = True
+
     def j_disarm(self, op, o):
         self.proc['faults'].clear()
 
@@ -878,6 +896,7 @@ class Eval:
         if persisted and not ob.forced:
             if loc.state == 'complete':
                 ob.mem = True
+                ob.vh = loc.vh
                 self.loads.append((name, it, loc))
                 j.stats['loads'] += 1
                 return 'ok'
@@ -886,6 +905,7 @@ class Eval:
                     loc.state = 'complete'
                     j.stats['indoubt_resolved_present'] += 1
                     ob.mem = True
+                    ob.vh = loc.vh
                     self.loads.append((name, it, loc))
                     return 'ok'
                 loc.state = 'absent'
@@ -958,7 +978,30 @@ class Eval:
                              partial_n=(rec or {}).get('partial'))
                 return 'fail'
         # success
+        vh = None
+        if j.rev_used:
+            # the value depends on the revision of the external resource at run time and on the values the inputs returned
+            reads = {}
+            dyn = bool(j.rev.get(it.slug, 0))
+            for rn in it.reads:
+                t = it.inputs[rn]
+                tvh = j.proc['objs'][chain['tok'][t.fullname]].vh
+                dyn = dyn or tvh is not None
+                reads[rn] = V.digest(j.expected(t, tvh))
+            if dyn:
+                vh = (V.digest({'t': it.slug, 'p': it.record['p'], 'i': reads}), j.rev.get(it.slug, 0))
+                if vh == (it.h, 0):
+                    vh = None
+                else:
+                    j.stats['rev_runs'] = j.stats.get('rev_runs', 0) + 1
+        ob.vh = vh
+        if j.rev_used and it.kind in ('genlazy', 'dir', 'cont'):
+            # values of these kinds are references into the store: copies held by other task objects now show the new result
+            for t2, o2 in j.proc['objs'].items():
+                if o2 is not ob and o2.mem and o2.locid == ob.locid:
+                    o2.vh = vh
         if loc is not None:
+            loc.vh = vh
             loc.state = 'complete'
             loc.tainted = False
             loc.fail_partial = False
@@ -1073,12 +1116,12 @@ class Eval:
                     ob.unknown = True
                     ob.mem = False
             if diskerr and not crash:
-                if 'ok' in res and res['ok'] != it.expected:
+                if 'ok' in res and res['ok'] != it.expected and not j.rev_used:
                     j.disc('C05', 'I-visible', op['i'], f'{name}: wrong value returned after an injected disk error', got=_short(res['ok']), expected=_short(it.expected))
             return
         if self.unknown:
             # in-memory state unknown after an earlier disk error in this process: only values are checked
-            if 'ok' in res and res['ok'] != it.expected:
+            if 'ok' in res and res['ok'] != it.expected and not j.rev_used:
                 j.disc('C05', 'I-visible', op['i'], f'{name}: wrong value after an earlier disk error', got=_short(res['ok']), expected=_short(it.expected))
             if 'err' in res and outcome != 'fail':
                 # the disk error is over (one-shot): requesting the value again has to recover, also through the same task object
@@ -1149,7 +1192,7 @@ class Eval:
                 loc.last_run = {'valid': False}
             return
         got = res.get('ok')
-        exp = it.expected
+        exp = j.expected(it, j.proc['objs'][chain['tok'][name]].vh)
         if got != exp and not self.skip_value:
             loaded_here = any(n == name for (n, _, _) in self.loads)
             if tainted:
